@@ -132,14 +132,18 @@ def name_pools() -> typing.Dict[str, typing.Dict[str, typing.List[str]]]:
         by_kind: typing.Dict[str, typing.List[str]] = {}
         words = [w for w in (sec.get('reserved_identifiers') or []) if isinstance(w, str) and valid(w)]
         by_kind['reserved_identifiers'] = words
+        if lang == 'py':   # the Python reserved words come from the interpreter (lang/py/__init__.py), not from the YAML
+            import builtins
+            import keyword
+            by_kind['reserved_identifiers'] = [w for w in list(keyword.kwlist) + dir(builtins) if valid(w)]
         for kind, pats in (sec.get('reserved_token_patterns_by_type') or {}).items():
-            got = []
             for pat in pats or []:
+                got = []
                 for base in _sample_regex(pat):
                     for cand in (base, base + 'x', base + 'X', base + '_t', base + 'opic', base + '9', 'a' + base):
                         if cand and valid(cand) and re.search(pat, cand) and cand not in got:
                             got.append(cand)
-            by_kind['pattern:' + kind] = got[:40]
+                by_kind['pattern:%s:%s' % (kind, pat)] = got
         for kind, pats in (sec.get('token_encoding_rules_by_identifier_type') or {}).items():
             got = []
             for pat in pats or []:
@@ -165,14 +169,14 @@ def pool_names(lang: str, rng) -> typing.List[str]:
     out = []
     for kind, names in (_POOLS.get(lang) or {}).items():
         if names:
-            out.extend(rng.sample(names, min(len(names), 3 if kind == 'reserved_identifiers' else 2)))
+            out.extend(rng.sample(names, min(len(names), 4 if kind == 'reserved_identifiers' else 1)))
     return out
 
 
 # ---- case generation ----------------------------------------------------------------------------------------------
 def gen_types(rng, n_types: int, max_depth: int, lang: str = 'c') -> list:
     extra = pool_names(lang, rng)
-    comps = SAFE_COMPONENTS + extra * 3      # configuration-derived names are drawn about as often as the fixed ones
+    comps = SAFE_COMPONENTS + extra * 2      # configuration-derived names are drawn about as often as the fixed ones
     shorts = SHORT_NAMES + extra
     root = rng.choice(ROOTS + extra[:2])
     # a random namespace tree: set of component lists, with gaps (types only at some levels)
@@ -184,6 +188,14 @@ def gen_types(rng, n_types: int, max_depth: int, lang: str = 'c') -> list:
                 break
             base = base + [rng.choice(comps)]
         nss.append(base)
+        if len(base) > 1 and rng.random() < 0.3:
+            # a sibling spelled like the stropped form of the last component (stropping prefix '_' for c/cpp, suffix '_' for py):
+            # when that component is reserved the two namespaces fold onto one identifier (the F-NS-FOLD situation)
+            twin = base[-1] + '_' if lang == 'py' else '_' + base[-1]
+            if not (twin.startswith('_') and twin.endswith('_')):
+                nss.append(base[:-1] + [twin])
+                if rng.random() < 0.5:
+                    nss.append(base[:-1] + [twin, rng.choice(comps)])
     types = []
     used = set()
     tries = 0
@@ -232,7 +244,11 @@ CORPUS = [
     dict(types=[[['ns'], 'X_1', 2, 3], [['ns'], 'X', 1, 2], [['ns'], 'X_1_2', 3, 4], [['ns', 'X_1x'], 'X', 1, 2]], lang='c'),
     # documented exception: two type names folded onto one identifier share a file (not a finding)
     dict(types=[[['ns', 'a'], '__y', 1, 0], [['ns', 'a'], '_y', 1, 0], [['ns'], 'T', 1, 0]], lang='c'),
-    # known finding F-NS-FOLD: sibling namespaces folded onto one identifier
+    # namespace components / type names reserved only for OTHER identifier kinds of the C target (function, typedef, macro, enum
+    # patterns): stropping with id type "path" leaves them alone, id type "any" would not
+    dict(types=[[['vendor', 'topic'], 'T', 1, 0], [['vendor', 'token', 'memory_x'], 'stream', 1, 0],
+                [['vendor', 'EAGAIN', 'atomic_x'], 'INT8_MAX', 1, 0], [['vendor', 'uint8_t'], 'cnd_t', 1, 0]], lang='c'),
+    # F-NS-FOLD (fixed by f08a0a1): sibling namespaces folded onto one identifier must both be kept
     dict(types=[[['ns', 'class'], 'Q', 1, 0], [['ns', '_class'], 'R', 1, 0]], lang='c'),
     dict(types=[[['ns', 'm', '__x', 'deep'], 'Q', 1, 0], [['ns', 'm', '_x'], 'R', 1, 0], [['ns', 'm'], 'S', 1, 0]], lang='c'),
 ]
@@ -379,6 +395,17 @@ def oracle_diff(r: dict, file_fold: bool) -> typing.List[str]:
     for t, p in o['paths'].items():
         if c['make_path'].get(t) != p[n_out:]:
             out.append('make_path(%r) = %r, expected %r' % (t, c['make_path'].get(t), p[n_out:]))
+    # the type file lies in the output folder of its namespace's Namespace object (next to the namespace file)
+    if r['es']:
+        for k, n in c['nodes'].items():
+            for t, tp in n['types']:
+                if tuple(tp[:-1]) != tuple(n['path'][:-1]):
+                    out.append('type file %r is not in the output folder %r of its namespace %r' % (tp, n['path'][:-1], k))
+        mp = c['make_path']
+        for t, rel in mp.items():
+            node = c['nodes'].get(t[0])
+            if node is not None and tuple(r['outdir_parts']) + tuple(rel[:-1]) != tuple(node['path'][:-1]):
+                out.append('make_path(%r) = %r leaves the output folder %r of namespace %r' % (t, rel, node['path'][:-1], t[0]))
     if not file_fold and len(set(o['paths'].values())) != len(o['paths']):
         out.append('oracle: two types share a path without folding')  # cannot happen; guards the oracle itself
     if r.get('after_build_new_files'):
@@ -444,8 +471,9 @@ def dec_ty(s: str) -> tuple:
 MODES = [(0, 0), (1, 1), (2, 3), (3, 2), (4, 0)]   # the last one replays the linking order observed on the implementation
 
 
-def model_input(r: dict, mode) -> str:
-    lines = ['CASE %d %s %s %s %d %d' % (1 if r['es'] else 0, enc(r['ext']), enc(r['stem']), enc_key(r['outdir_parts']), mode[0], mode[1])]
+def model_input(r: dict, mode, prefix_quirk: bool = False) -> str:
+    lines = ['CASE %d %s %s %s %d %d %d' % (1 if r['es'] else 0, enc(r['ext']), enc(r['stem']), enc_key(r['outdir_parts']), mode[0], mode[1],
+                                          1 if prefix_quirk else 0)]
     for a, b in sorted(r['strop'].items()):
         if a != b:
             lines.append('S %s %s' % (enc(a), enc(b)))
@@ -490,13 +518,13 @@ def parse_model(block: typing.List[str]) -> dict:
     return res
 
 
-def run_model(exe: str, results: typing.List[dict]) -> typing.List[typing.Optional[typing.List[dict]]]:
+def run_model(exe: str, results: typing.List[dict], prefix_quirk: bool = False) -> typing.List[typing.Optional[typing.List[dict]]]:
     text, idx = [], []
     for i, r in enumerate(results):
         if 'err' in r:
             continue
         for m in MODES:
-            text.append(model_input(r, m))
+            text.append(model_input(r, m, prefix_quirk))
             idx.append(i)
     p = core.run([exe], input=''.join(text), timeout=900)
     blocks, cur = [], []
@@ -601,32 +629,20 @@ def judge(case: dict, r: dict, kf_live: bool, models: typing.Optional[typing.Lis
     if models is not None:
         diffs = [model_diff(m, c) for m in models]
         if any(m['fold'] is not None and m['fold'] != ns_fold for m in models):
-            v['model'] = ['trigger predicate: Coq ns_fold = %r, checker = %r' % (models[0]['fold'], ns_fold)]
-        elif ns_fold:
-            # which namespace survives depends on the iteration order of namespace_index: the model replaying the observed
-            # order (last mode) must reproduce the implementation exactly
-            if kf_live and diffs[-1]:
+            v['model'] = ['fold predicate: Coq ns_fold = %r, checker = %r' % (models[0]['fold'], ns_fold)]
+        elif ns_fold and kf_live:
+            # pre-fix behaviour is back (only possible while F-NS-FOLD is listed as known): the surviving namespace depends on
+            # the iteration order of namespace_index; the model replaying the observed order (last mode) must reproduce it
+            if diffs[-1]:
                 v['model'] = ['the quirk-faithful model (observed linking order) does not reproduce the implementation: ' + '; '.join(diffs[-1])]
         else:
-            # the theorems say the result does not depend on the iteration orders: every order must agree
+            # the theorems say the result does not depend on the iteration orders: every order must agree, fold cases included
             bad = [d for d in diffs if d]
             if bad:
                 v['model'] = bad[0]
     if od:
         if ns_fold and kf_live and models is not None and not v['model']:
             v['kf'] = True   # trigger satisfied and the quirk-faithful model reproduces the behaviour
-            if 'new_files' in r and not r.get('with_support'):
-                # files on disk are then judged against the quirk model's enumeration instead of the oracle
-                m = models[-1]
-                exp = {rel_to_sandbox(p, r['outdir_spelled']) for (_, p) in m['datatypes']}
-                if r.get('generate_namespace_types'):
-                    exp |= {rel_to_sandbox(p, r['outdir_spelled']) for (_, p) in m['namespaces']}
-                if set(r['new_files']) != exp:
-                    v['kf'] = False
-                    v['oracle'] = ['files on disk differ from the quirk-faithful model: missing %r, unexpected %r'
-                                   % (sorted(exp - set(r['new_files'])), sorted(set(r['new_files']) - exp))]
-        elif ns_fold and kf_live and models is None:
-            v['kf'] = True
         else:
             v['oracle'] = od
     return v
@@ -684,10 +700,11 @@ def main(chk: core.Check, replay: typing.Optional[str] = None) -> int:
         cases = gen_cases(chk.rng, n_cases, n_cli)
 
     # 1. proof obligations
-    res = core.coq_check('C11', [])
+    res = core.coq_check('C11', ['pin_c11tree', 'pin_c11path', 'c11_scan'])
     chk.proof_coverage(res, [
-        'hand model Gen/Namespace.v of build_namespace_tree, Namespace enumeration/lookup and make_path (validated by the '
-        'correspondence run below, not derived from the source)',
+        'hand model Gen/Namespace.v of build_namespace_tree, Namespace enumeration/lookup and make_path; valid for the pinned '
+        'shape of the modelled functions (tools/translators/gen_c11.py: shape pins c11tree, c11path + AST scan c11_scan, '
+        'regenerated on every run) and validated by the correspondence run below',
         'stropping is abstract in the proofs (hypotheses: injective on the names involved / outputs are identifiers; see C09)',
         'pathlib.PurePath parsing of the output directory; POSIX path resolution (safe components stay inside the directory)',
         'extraction: Require Extraction ExtrOcamlBasic only; OCaml 4.13.1; ocaml/c11_driver.ml',
@@ -699,11 +716,11 @@ def main(chk: core.Check, replay: typing.Optional[str] = None) -> int:
     # 2. implementation vs. property oracle (falsifier) and vs. the extracted model
     impl = run_impl(cases)
     ok_model, exe, log = core.build_extracted('c11', 'ExtractC11.v', 'c11_driver.ml')
-    models = run_model(exe, impl) if ok_model else [None] * len(cases)
     if not ok_model:
         broken.append('model does not build/extract: ' + log[-300:])
 
-    # known finding probe
+    # F-NS-FOLD is fixed in /repo (status "fixed": nothing is printed or suppressed, the conformant model eqkey = same is used).
+    # Only if it is ever listed as "known" again the witness is probed and the pre-fix instantiation eqkey = strop is used.
     kf_live = False
     if chk.is_known(WITNESS_ID):
         w = chk.known_entry(WITNESS_ID)['witness']
@@ -714,6 +731,7 @@ def main(chk: core.Check, replay: typing.Optional[str] = None) -> int:
             kf_live = len(got) < len(w['types'])
         if kf_live:
             chk.report_known(WITNESS_ID)
+    models = run_model(exe, impl, prefix_quirk=kf_live) if ok_model else [None] * len(cases)
 
     stats = collections.Counter()
     distinct = set()
@@ -734,6 +752,7 @@ def main(chk: core.Check, replay: typing.Optional[str] = None) -> int:
             multi = len({(tuple(t[0]), t[1]) for t in r['order']}) < len(r['order'])
             stats['with_empty_intermediate_ns'] += bool(empty)
             stats['with_stropped_names'] += stropped
+            stats['with_name_where_id_type_any_differs_from_path'] += any(r.get('strop_any', {}).get(a, b) != b for a, b in r['strop'].items())
             stats['with_several_versions'] += multi
             stats['max_depth'] = max(stats['max_depth'], max(len(k) for k in nodes))
             stats['files_checked_on_disk'] += len(r.get('new_files', []))
@@ -750,7 +769,9 @@ def main(chk: core.Check, replay: typing.Optional[str] = None) -> int:
     chk.coverage.update({
         'evaluations': len(cases), 'distinct_nontrivial': len(distinct),
         'rule': 'seeded random DSDL trees (1..14 types, nesting up to 9, gaps in the namespace chain, several versions, component and '
-                'type names that are keywords/reserved in C, C++ or Python) written as .dsdl files, read with pydsdl, shuffled, built '
+                'type names from fixed lists plus, per case, names sampled from the language configuration of the tree under test: '
+                'reserved identifiers and one match of EVERY reserved pattern of EVERY identifier type (properties.yaml; Python '
+                'keywords/builtins), validated with pydsdl.check_name) written as .dsdl files, read with pydsdl, shuffled, built '
                 'with the real build_namespace_tree for c/cpp/py x extension/stem/stropping overrides x 5 spellings of the output '
                 'directory, generated through the API or nnvg; + fixed corpus. non-trivial = distinct (types, configuration) with more '
                 'than one namespace and at least one of: empty intermediate namespace, a name changed by stropping, several versions',
